@@ -83,6 +83,14 @@ CHECKS = {
          "shuffle is pinned from the test side; exact sample equality when the step is a dyadic double, the four predicates on "
          "every case; counter files incl. the '' key.",
          "5 C20", "Coq proof (loop invariant, termination measure, text round trip) + differential correspondence with pinned shuffle"),
+ "C12": ("proof", "Theorems C12_matrix (every cell = RWSpec.act of the labelled weights over the prepared cues: each cue once "
+         "under True/None, with multiplicity under False, empty set -> 0; for 1 process and ANY pool run), C12_paths_agree / "
+         "C12_paths_agree_dict, C12_missing_cue / C12_first_bad_event / C12_dict_errors (which exception, when), "
+         "C12_multiplicity, C12_set_order, C12_one_step (step - W = alpha*beta*(target - activation) for present cues). "
+         "Correspondence X-act: families of the same weights through all layouts (C, Fortran, transposed/strided views), "
+         "n_jobs 1..6, dict/WeightDict twins, the policy x ignore grid, compared exactly; the real one-step experiment "
+         "through dict_ndl and both parallel learners.",
+         "5 addendum C12", "Coq proof (sums over prepared cues, pool runs as permutations) + exact differential correspondence"),
  "C13": ("proof", "Theorems C13_row_locality, C13_equivariance, C13_cue_order, C13_affine_in_W0, C13_learn0_additive, "
          "C13_proportional_to_lambda, C13_beta2_zero_absent_rows_fixed, C13_alpha_zero_column_fixed for RWSpec.learn over "
          "every commutative ring. The check evaluates each law as a relation between runs of the real learners and runs "
